@@ -41,10 +41,20 @@ type AV struct {
 	UB    []Sym
 	Mixed bool   // T results from arithmetic with an unbounded program-supplied operand
 	PExt  bool   // P comes from outside the function (parameter, field, global): nothing is known about it
+	NZ    bool   // known to be non-zero (a fact intervals cannot express for ranges that span zero)
 	Src   string // where the peer-derived part comes from
 }
 
 func (a AV) all() *Iv { return hull(a.T, a.P) }
+
+// nonZero: the value cannot be 0.
+func (a AV) nonZero() bool {
+	if a.NZ {
+		return true
+	}
+	all := a.all()
+	return all != nil && !all.contains(bi(0))
+}
 
 func (a AV) String() string {
 	s := "T=" + a.T.String() + " P=" + a.P.String()
@@ -62,7 +72,7 @@ func (a AV) String() string {
 }
 
 func (a AV) eq(b AV) bool {
-	if !a.T.Eq(b.T) || !a.P.Eq(b.P) || a.Mixed != b.Mixed || a.PExt != b.PExt || len(a.UB) != len(b.UB) {
+	if !a.T.Eq(b.T) || !a.P.Eq(b.P) || a.Mixed != b.Mixed || a.PExt != b.PExt || a.NZ != b.NZ || len(a.UB) != len(b.UB) {
 		return false
 	}
 	for i := range a.UB {
@@ -105,7 +115,7 @@ func normUB(u []Sym) []Sym {
 }
 
 func joinAV(a, b AV) AV {
-	r := AV{T: hull(a.T, b.T), P: hull(a.P, b.P), Mixed: a.Mixed || b.Mixed, PExt: a.PExt || b.PExt, Src: a.Src}
+	r := AV{T: hull(a.T, b.T), P: hull(a.P, b.P), Mixed: a.Mixed || b.Mixed, PExt: a.PExt || b.PExt, Src: a.Src, NZ: a.nonZero() && b.nonZero()}
 	if r.Src == "" {
 		r.Src = b.Src
 	}
@@ -281,6 +291,8 @@ type TLG struct {
 	round      int
 
 	collect bool
+	probe   func(in ssa.Instruction, eval func(ssa.Value) AV, locAV func(key string) (AV, bool))
+	pure    map[*ssa.Function]bool
 	Sinks   []*Sink
 	Sources map[string]int // source description -> count (evidence)
 
@@ -292,7 +304,7 @@ func (c *Ctx) TLG() *TLG {
 		return c.tlg
 	}
 	t := &TLG{c: c, ret: map[*ssa.Function][]AV{}, paramT: map[*ssa.Function][]AV{}, fieldT: map[*types.Var]string{},
-		fieldElemT: map[*types.Var]string{}, Sources: map[string]int{}}
+		fieldElemT: map[*types.Var]string{}, Sources: map[string]int{}, pure: map[*ssa.Function]bool{}}
 	for _, f := range c.Funcs() {
 		if inPkgs(f, "data/...", "level/block", "level/biome", "level/item", "level/entity") {
 			// generated tables: no decoders
@@ -319,6 +331,57 @@ func (c *Ctx) TLG() *TLG {
 	sort.SliceStable(t.Sinks, func(i, j int) bool { return t.Sinks[i].Key() < t.Sinks[j].Key() })
 	c.tlg = t
 	return t
+}
+
+// pureFn: a module function that only computes: no stores outside its own
+// locals, no map updates, sends, defers, goroutines, and only calls to other
+// pure functions or builtins. Calling it cannot change any tracked location.
+func (t *TLG) pureFn(fn *ssa.Function, depth int) bool {
+	if fn == nil || depth > 4 {
+		return false
+	}
+	if v, ok := t.pure[fn]; ok {
+		return v
+	}
+	if len(fn.Blocks) == 0 || !t.c.P.InModule(fn) {
+		return false
+	}
+	t.pure[fn] = false // recursion guard
+	res := true
+	for _, b := range fn.Blocks {
+		for _, in := range b.Instrs {
+			switch x := in.(type) {
+			case *ssa.Store:
+				if _, local := x.Addr.(*ssa.Alloc); !local {
+					res = false
+				}
+			case *ssa.MapUpdate, *ssa.Send, *ssa.Go, *ssa.Defer, *ssa.Panic:
+				res = false
+			case *ssa.Call:
+				cc := x.Common()
+				if _, isB := cc.Value.(*ssa.Builtin); isB {
+					continue
+				}
+				if isPureExternal(calleeName(cc)) {
+					continue
+				}
+				sc := cc.StaticCallee()
+				if sc == nil || !t.pureFn(core.Origin(sc), depth+1) {
+					res = false
+				}
+			}
+		}
+	}
+	t.pure[fn] = res
+	return res
+}
+
+// Probe re-runs the analysis of fn and calls visit before every instruction
+// with an evaluator for the abstract state at that point.
+func (t *TLG) Probe(fn *ssa.Function, visit func(in ssa.Instruction, eval func(ssa.Value) AV, locAV func(key string) (AV, bool))) {
+	t.probe = visit
+	defer func() { t.probe = nil }()
+	t.analyze(fn)
 }
 
 // ---------------------------------------------------------------- per function
@@ -547,7 +610,13 @@ func (a *fnAn) blockCollect(b *ssa.BasicBlock, st tstate) {
 	a.storeCtr = 0
 	a.events = a.events[:0]
 	for _, in := range b.Instrs {
-		a.instr(in, st, true)
+		if a.t.probe != nil {
+			a.t.probe(in, func(v ssa.Value) AV { return a.eval(v, st) }, func(key string) (AV, bool) { av, ok := st["L:"+key]; return av, ok })
+		}
+		a.instr(in, st, a.t.probe == nil)
+	}
+	if a.t.probe != nil {
+		return
 	}
 	if len(b.Instrs) > 0 {
 		if iff, ok := b.Instrs[len(b.Instrs)-1].(*ssa.If); ok {
@@ -785,6 +854,9 @@ func (a *fnAn) conv(x ssa.Value, to types.Type, st tstate) AV {
 	}
 	r := AV{Mixed: o.Mixed, Src: o.Src, PExt: o.PExt}
 	fits := true
+	defer func() {
+		// a conversion between integer types maps non-zero to non-zero only when nothing is truncated
+	}()
 	if o.T != nil {
 		if o.T.subset(tr) {
 			r.T = o.T
@@ -807,6 +879,7 @@ func (a *fnAn) conv(x ssa.Value, to types.Type, st tstate) AV {
 	}
 	if fits {
 		r.UB = o.UB
+		r.NZ = o.NZ
 	}
 	return r
 }
@@ -1209,6 +1282,9 @@ func (a *fnAn) constrain(v AV, op token.Token, other AV, otherVal ssa.Value) (AV
 		if c, ok := o.isConst(); ok {
 			r.T = exclude(r.T, c)
 			r.P = exclude(r.P, c)
+			if c.Sign() == 0 {
+				r.NZ = true
+			}
 		}
 	}
 	if v.T == nil && v.P == nil {
@@ -1297,11 +1373,16 @@ func (a *fnAn) assign(st tstate, v ssa.Value, av AV, b *ssa.BasicBlock) {
 
 func (a *fnAn) assignConv(st tstate, x ssa.Value, to types.Type, av AV, b *ssa.BasicBlock) {
 	from, tt := typeRange(x.Type(), a.sizes), typeRange(to, a.sizes)
-	if from == nil || tt == nil || !from.subset(tt) {
+	if from == nil || tt == nil {
 		return
 	}
-	// value-preserving: the source has the same value
 	src := a.eval(x, st)
+	if !from.subset(tt) {
+		// value-preserving only if every value the source can have here fits the target
+		if all := src.all(); all == nil || !all.subset(tt) {
+			return
+		}
+	}
 	n := av
 	n.T = meet(src.T, av.T)
 	n.P = meet(src.P, av.P)
@@ -1421,7 +1502,7 @@ func (a *fnAn) instr(in ssa.Instruction, st tstate, collect bool) {
 				if isIntegerType(x.Type(), a.sizes) {
 					d := a.eval(x.Y, st)
 					if d.T != nil {
-						ok := !d.T.contains(bi(0))
+						ok := !d.T.contains(bi(0)) || d.NZ
 						a.addSink(x, "div", d, ok, "peer-derived divisor != 0", "divisor "+d.String())
 					}
 				}
@@ -1559,6 +1640,9 @@ func (a *fnAn) call(in ssa.Instruction, cc *ssa.CallCommon, st tstate, collect b
 	}
 	a.propagateParams(in, cc, st)
 	if pureExt {
+		return
+	}
+	if sc := cc.StaticCallee(); sc != nil && a.t.pureFn(core.Origin(sc), 0) {
 		return
 	}
 	switch name {
